@@ -220,7 +220,7 @@ def check(col: Collector, tier: str):
     pmv = [n.targets[0].id for n in walk_no_nested(aat.node) if isinstance(n, ast.Assign) and isinstance(n.value, ast.Call)
            and call_name(n.value) == "process_metadata" and isinstance(n.targets[0], ast.Name)]
     sel = selected_by_type(aat.node, "self._inject_blocks", "InjectCodeBlock")
-    ok_assign = len(assigned) == 1 and not appended and len(pmv) == 1 and sel == pmv[0]
+    ok_assign = len(assigned) == 1 and len(pmv) == 1 and sel == pmv[0] and (not appended or src(assigned[0].value) in ("[]", "list()"))
     if not ok_assign and not assigned and len(appended) == 1:
         # equivalent form: appended item by item in metadata order, starting from the list that reset() emptied (the pending-
         # translation protocol checked by C07 guarantees reset ran since the previous query)
